@@ -15,8 +15,9 @@ const (
 	keyScanBufSize = 1024
 
 	// maxMacroFeeds is how many times keys can be fed to the stack (a macro is
-	// run) before all fed keys have been used: a macro running itself would
-	// otherwise feed keys forever, and the terminal would never be read again.
+	// run), on top of one time per key typed, before all keys have been used:
+	// a macro running itself would otherwise feed keys forever, and the
+	// terminal would never be read again.
 	maxMacroFeeds = 1000
 )
 
@@ -32,7 +33,8 @@ type Keys struct {
 	buf       []byte      // Keys read and waiting to be used.
 	matched   []rune      // Keys that have been successfully matched against a bind.
 	macroKeys []rune      // Keys that have been fed by a macro.
-	feeds     int         // Feeds made since the fed keys were last all used.
+	feeds     int         // Feeds made since the keys were last all used.
+	typed     int         // Keys read from the terminal since then: each may run a macro.
 	mustWait  bool        // Keys are in the stack, but we must still read stdin.
 	waiting   bool        // Currently waiting for keys on stdin.
 	reading   bool        // Currently reading keys out of the main loop.
@@ -52,10 +54,11 @@ type Keys struct {
 func WaitAvailableKeys(keys *Keys, cfg *inputrc.Config) error {
 	keys.cfg = cfg
 
-	// All fed keys have been used: no macro is running anymore.
+	// All keys have been used: no macro is running anymore.
 	keys.mutex.Lock()
-	if len(keys.macroKeys) == 0 {
+	if len(keys.macroKeys) == 0 && len(keys.buf) == 0 {
 		keys.feeds = 0
+		keys.typed = 0
 	}
 	keys.mutex.Unlock()
 
@@ -106,6 +109,7 @@ func WaitAvailableKeys(keys *Keys, cfg *inputrc.Config) error {
 
 			keys.mutex.Lock()
 			keys.buf = append(keys.buf, keyBuf...)
+			keys.typed += len(keyBuf)
 			keys.mutex.Unlock()
 		}
 
@@ -317,7 +321,7 @@ func (k *Keys) Feed(begin bool, keys ...rune) {
 	defer k.mutex.Unlock()
 
 	// A runaway macro (one that runs itself) is dropped.
-	if k.feeds++; k.feeds > maxMacroFeeds {
+	if k.feeds++; k.feeds > maxMacroFeeds+k.typed {
 		k.macroKeys = nil
 		return
 	}
